@@ -554,6 +554,24 @@ class WcsSampler(object):
         lat_min = refine_lat(np.argmin)
         lat_max = refine_lat(np.argmax)
 
+        # If a celestial pole lies inside the image, the latitude extreme is the
+        # pole itself. Sampling at pixel spacing only gets close to it, which
+        # would leave out the (small) tiles right around the pole.
+
+        with np.errstate(invalid="ignore"):
+            pole_pix = self._wcs.wcs_world2pix([[0.0, -90.0], [0.0, 90.0]], 1)
+            has_pole = (
+                (pole_pix[:, 0] >= 0.5)
+                & (pole_pix[:, 0] <= naxis1 + 0.5)
+                & (pole_pix[:, 1] >= 0.5)
+                & (pole_pix[:, 1] <= naxis2 + 0.5)
+            )
+
+        if has_pole[0]:
+            lat_min = -0.5 * np.pi
+        if has_pole[1]:
+            lat_max = 0.5 * np.pi
+
         # Longitudes are annoying since we need to make sure they're unwrapped.
         # On the other hand, I can't think of a non-pathological way in which an
         # image's maximum longitude would occur anywhere other than its edge.
